@@ -129,6 +129,11 @@ type batchResult struct {
 // at most nWorkers at a time. bin selects the plain or the race build.
 func runChildren(r *vlib.Run, bin, entry string, total, batch int, perChildTimeout time.Duration, extra ...string) *batchResult {
 	res := &batchResult{stats: map[string]int{}, distinct: vlib.NewDistinct()}
+	// quick-tier batches take seconds; four minutes is still some twenty times
+	// that, and keeps a wedged batch from costing a quarter of an hour
+	if !r.Thorough() && perChildTimeout > 4*time.Minute {
+		perChildTimeout = 4 * time.Minute
+	}
 	var mu sync.Mutex
 	nb := (total + batch - 1) / batch
 	tmp, _ := os.MkdirTemp("", "verif-"+r.Prop+"-")
